@@ -1347,6 +1347,8 @@ class ManagerCorr(Corr):
 class C12(Prop):
     id = "C12"
     props_file = "Props/C12.v"
+    # redundant tie (core.gen_tie): these functions, translated from the source on every run, equal the hand model for all inputs
+    gen_tie_theorems = ['GenTie_SensingFrameConfig___init__', 'GenTie_get_scale_factor', 'GenTie_get_scale_factor_outside', 'GenTie_get_bbox_scale', 'GenTie_DynamicObjectWithSensingResult___init__', 'GenTie_DynamicObjectWithSensingResult___init___outside', 'GenTie__evaluate_pointcloud_for_detection', 'GenTie__evaluate_pointcloud_for_detection_outside', 'GenTie__evaluate_pointcloud_for_non_detection', 'GenTie__evaluate_pointcloud_for_non_detection_outside', 'GenTie_evaluate_frame', 'GenTie_evaluate_frame_outside']
     gen_files = []
     design_ref = "DESIGN.md section 4, C12"
     technique = ("Rocq proof about an executable model of crop_pointcloud (per-edge uint8 winding counter), box corners and the sensing frame "
